@@ -96,3 +96,58 @@ Example C17_example :
   map (fun p => starts_with_tables (pa_pkts p)) (snd ex_run) =
     [false; false; false; true; false; true; false; false; false; true; false; false; false; false; true].
 Proof. vm_compute. repeat split. Qed.
+
+(* ---- the configuration and scheduling functions of the theorems above ARE the source ----
+   Gen/MuxGen.v is translated from the current /repo/muxer.go on every run (go/gen/muxgen*.go): NewMuxer with its
+   options, AddElementaryStream, SetPCRPID, retransmitTables and WriteData up to its packetisation loop, statement
+   by statement. new_muxer / add_es / set_pcr / retransmit_tables / write_data, about which every theorem of this
+   file speaks, are those regenerated functions (maps instantiated with the model's association lists, the byte
+   producers with the models of writePSIData / writePacket, the io.Writer with the list of Write calls). A change
+   to the body of one of these functions therefore breaks these proofs — no generated history has to reach it:
+   a retransmit counter initialised before the options ran, a version counter with another mask, the PMT-PID test
+   hoisted out of the PID search loop, another retransmission condition. *)
+Require Import Gen.MuxGen Model.Desc Proofs.MuxGenEq.
+
+(* NewMuxer: every field of the fresh Muxer, for any list of options (the period of the last one, else 40);
+   tablesRetransmitCounter is read after the options ran; the version counters wrap at 31, the others at 15 *)
+Theorem C17_config_is_source : forall (W : Type) (w : W) opts,
+  NewMuxer [] [] [] gpm_set w opts = new_view w (new_muxer (opts_period opts 40)).
+Proof. exact new_muxer_is_generated. Qed.
+Print Assumptions C17_config_is_source.
+
+(* AddElementaryStream, automatic PID search included (fuel = the model's: out of fuel = the model's Panic) *)
+Theorem C17_add_is_source : forall s es pb,
+  add_es s es = add_of_gen s (Muxer_AddElementaryStream ge_get ge_set gr_del gr_get (S (S (length (ms_es s))))
+                                (pmt_of s) (ms_pmt_updated s) (ms_next_pid s) pb (ms_es s) (ms_removed s) es).
+Proof. exact add_es_of_generated. Qed.
+Print Assumptions C17_add_is_source.
+
+Theorem C17_set_pcr_is_source : forall s pid,
+  set_pcr s pid =
+  let '(pmt, upd) := Muxer_SetPCRPID (pmt_of s) (ms_pmt_updated s) pid in
+  cfg_state s pmt upd (ms_next_pid s) (ms_es s) (ms_removed s).
+Proof. exact set_pcr_of_generated. Qed.
+Print Assumptions C17_set_pcr_is_source.
+
+(* retransmitTables: counter, period, force, reset only after a successful WriteTables *)
+Theorem C17_schedule_is_source : forall s force pb mb buf, pa_res (snd (retransmit_tables s force)) <> Panic ->
+  let '(w, pmu, pmtu, patv, pmtv, patcc, pmtcc, _, _, _, cnt, n, e) :=
+    Muxer_retransmitTables calc_descriptor_length calc_pmt_section_length g_write to_pat g_wpsi g_wpkt
+      (@nil (list Z)) C_MpegTsPacketSize (ms_period s) mux_pm (ms_pm_updated s) (pmt_of s) (ms_pmt_updated s)
+      (ms_pat_version s) (ms_pmt_version s) (ms_pat_cc s) (ms_pmt_cc s) pb mb buf (ms_retransmit s) force in
+  fst (retransmit_tables s force) = set_retransmit (set_tables s patv pmtv patcc pmtcc pmu pmtu) cnt /\
+  mout_of_part (snd (retransmit_tables s force)) = mk_mout (terr_res e) n (groups_of w).
+Proof. exact retransmit_of_generated. Qed.
+Print Assumptions C17_schedule_is_source.
+
+(* WriteData in front of its loop: PID lookup, forceTables (random access indicator on the PCR PID), the call of
+   retransmitTables and its error path; the loop itself is the model's (wd_rest) *)
+Theorem C17_data_tables_is_source : forall s d pb mb buf,
+  pa_res (snd (retransmit_tables s (af_rai (MuxerData_AdaptationField d) && (MuxerData_PID d =? ms_pcr_pid s)))) <> Panic ->
+  (fst (write_data s d), mout_of_part (snd (write_data s d))) =
+  Muxer_WriteData_until_loop calc_descriptor_length calc_pmt_section_length g_write ge_get to_pat g_wpsi g_wpkt
+    (wd_ret s) (wd_rest_gen s)
+    (@nil (list Z)) C_MpegTsPacketSize (ms_period s) mux_pm (ms_pm_updated s) (pmt_of s) (ms_pmt_updated s)
+    (ms_pat_version s) (ms_pmt_version s) (ms_pat_cc s) (ms_pmt_cc s) pb mb buf (ms_es s) (ms_retransmit s) d.
+Proof. exact write_data_of_generated. Qed.
+Print Assumptions C17_data_tables_is_source.
